@@ -17,7 +17,9 @@ Record RInv (st : state) : Prop := mkRInv {
   (* (iv) *)
   ri_lv : forall L, 1 <= L <= 8 -> level_ok (snapS st) (st_pos st) L (st_rep st L);
   ri_snap : snapP 0 (st_rep st SnapshotLevel) /\ forall f, In f (st_rep st SnapshotLevel) -> s_max f <= st_pos st;
-  ri_cache : forall L i, 1 <= L <= 9 -> st_cache st L = Some i -> s_max i = lmax (st_rep st L)
+  ri_cache : forall L i, 1 <= L <= 9 -> st_cache st L = Some i -> s_max i = lmax (st_rep st L);
+  (* (iv) second half: max(L) <= max(L-1) *)
+  ri_lmax : forall L, 1 <= L <= 8 -> lmax (st_rep st L) <= lmax (st_rep st (L - 1))
 }.
 
 (** which operations the theorem covers: levels in range, and a direct TXID
@@ -51,14 +53,15 @@ Lemma rinv_cache st cache' :
   RInv st ->
   (forall K i, 1 <= K <= 9 -> cache' K = Some i -> st_cache st K = Some i \/ s_max i = lmax (st_rep st K)) ->
   RInv (mkSt (st_rep st) cache' (st_pos st) (st_ret st) (st_nlv st)).
-Proof. intros [A B C D] H. constructor; simpl; auto. intros L i HL E. destruct (H _ _ HL E); eauto. Qed.
+Proof. intros [A B C D M] H. constructor; simpl; auto. intros L i HL E. destruct (H _ _ HL E); eauto. Qed.
 
 Lemma rinv_upd_level st L l' cache' :
   RInv st -> 1 <= L <= 8 -> level_ok (snapS st) (st_pos st) L l' -> lmax (st_rep st L) <= lmax l' ->
+  lmax l' <= lmax (st_rep st (L - 1)) ->
   (forall K i, 1 <= K <= 9 -> cache' K = Some i -> (K = L /\ s_max i = lmax l') \/ (K <> L /\ st_cache st K = Some i)) ->
   RInv (mkSt (upd (st_rep st) L l') cache' (st_pos st) (st_ret st) (st_nlv st)).
 Proof.
-  intros [A B C D] HL Hok Hmax Hc.
+  intros [A B C D M] HL Hok Hmax Hsrc Hc.
   assert (HS: lmax (upd (st_rep st) L l' SnapshotLevel) = snapS st).
   { unfold snapS. rewrite upd_other; auto. rewrite snap_level_9. lia. }
   constructor; simpl; unfold snapS; simpl.
@@ -69,25 +72,33 @@ Proof.
   - intros K i HK E. destruct (Hc _ _ HK E) as [[-> ?]|[? ?]].
     + rewrite upd_same. auto.
     + rewrite upd_other; auto.
+  - intros K HK. destruct (N.eq_dec K L) as [->|nK].
+    + rewrite upd_same, upd_other by lia. auto.
+    + rewrite (upd_other _ L l' K) by auto. destruct (N.eq_dec (K - 1) L) as [e|ne].
+      * rewrite e, upd_same. specialize (M K HK). rewrite e in M. lia.
+      * rewrite upd_other by auto. auto.
 Qed.
 
 Lemma rinv_upd_l0_suffix st l' a' :
   RInv st -> runP a' l' -> a' + N.of_nat (length l') = st_pos st -> a' <= lmax (st_rep st 1) ->
-  (st_pos st = 0 \/ l' <> []) ->
+  (st_pos st = 0 \/ l' <> []) -> lmax (st_rep st 1) <= lmax l' ->
   RInv (set_rep st 0 l').
 Proof.
-  intros [A B C D] H1 H2 H3 H4.
+  intros [A B C D M] H1 H2 H3 H4 H5.
   constructor; unfold set_rep, snapS; simpl.
   - exists a'. rewrite upd_same, upd_other by lia. auto.
   - intros K HK. rewrite !upd_other by (try rewrite snap_level_9; lia). apply B. auto.
   - rewrite upd_other by (rewrite snap_level_9; lia). auto.
   - intros K i HK E. rewrite upd_other by lia. auto.
+  - intros K HK. rewrite (upd_other _ 0 l' K) by lia. destruct (N.eq_dec K 1) as [->|].
+    + rewrite upd_same. auto.
+    + rewrite upd_other by lia. auto.
 Qed.
 
 (** ** sync *)
 Lemma rinv_sync st t : RInv st -> RInv (sync_upload st t).
 Proof.
-  intros [A B C D]. destruct A as (a&A1&A2&A3&A4).
+  intros [A B C D M]. destruct A as (a&A1&A2&A3&A4).
   set (info := mkS 0 (st_pos st + 1) (st_pos st + 1) t t).
   assert (P: put info (st_rep st 0) = st_rep st 0 ++ [info]).
   { eapply put_append. { apply runP_incrP. eauto. }
@@ -102,6 +113,11 @@ Proof.
     apply (level_ok_mono (snapS st) _ (st_pos st) _ K); [unfold snapS; simpl; lia | simpl; lia | apply B; auto].
   - rewrite upd_other by (rewrite snap_level_9; lia). destruct C. split; auto. intros f Hf. specialize (H0 _ Hf). lia.
   - intros K i HK E. rewrite upd_other by lia. destruct (K =? 0) eqn:E0; [apply N.eqb_eq in E0; lia|]. auto.
+  - intros K HK. rewrite (upd_other _ 0 _ K) by lia. destruct (N.eq_dec K 1) as [->|].
+    + rewrite upd_same. rewrite (lmax_incr_snoc _ _ a).
+      * simpl. destruct (B 1) as (_&_&B3); [lia|]. pose proof (lmax_from_le (st_rep st 1) 0 (st_pos st) ltac:(lia) B3). rewrite lmax_unfold. lia.
+      * apply runP_incrP. apply runP_snoc; auto. simpl. lia.
+    + rewrite upd_other by lia. auto.
 Qed.
 
 (** ** the TXID range loop *)
@@ -191,7 +207,7 @@ Qed.
 Lemma files_ok st K : RInv st -> 0 <= K <= 8 -> forall f, In f (st_rep st K) ->
   0 < s_min f /\ s_min f <= s_max f /\ s_max f <= st_pos st.
 Proof.
-  intros [A B C D] HK f Hf. destruct (N.eq_dec K 0) as [->|].
+  intros [A B C D M] HK f Hf. destruct (N.eq_dec K 0) as [->|].
   - destruct A as (a&A1&A2&_). destruct (runP_bounds _ _ A1 _ Hf) as (?&?&?). lia.
   - destruct (B K) as (_&B2&B3); [lia|]. destruct (incrP_bounds _ _ B2 _ Hf). specialize (B3 _ Hf). lia.
 Qed.
@@ -278,6 +294,7 @@ Proof.
       destruct (R1 _ H). rewrite (lmax_incr _ 0 L2) in Hprev. unfold seek in *. lia.
     + intros f Hf. apply in_app_or in Hf. destruct Hf as [?|[<-|[]]]; auto.
   - rewrite Hnewmax. unfold seek in Hmn. lia.
+  - rewrite Hnewmax. rewrite <- R3. apply lmax_in. apply (Hin _ Hf2).
   - intros K i HK. destruct (K =? dst) eqn:E.
     + apply N.eqb_eq in E. intros [= <-]. left. split; auto.
     + apply N.eqb_neq in E. intros. right. auto.
@@ -369,6 +386,11 @@ Proof.
   - rewrite app_length in A2. lia.
   - destruct B2 as (x&Hx&Ex); [rewrite ED; discriminate|]. specialize (HD1 _ Hx). lia.
   - right. apply HD2. rewrite ER, ED. discriminate.
+  - assert (HR: R <> []) by (apply HD2; rewrite ER, ED; discriminate).
+    destruct (runP_mem R (a + N.of_nat (length D)) (st_pos st) B1) as (f&Hf&_&Em).
+    { rewrite app_length in A2. destruct R; [congruence|]. simpl in *. lia. }
+    pose proof (lmax_in _ _ Hf). destruct (ri_lv st HI 1) as (_&_&B3); [lia|].
+    pose proof (lmax_from_le (st_rep st 1) 0 (st_pos st) ltac:(lia) B3). rewrite lmax_unfold. lia.
 Qed.
 
 Lemma l0_retention_frame st l0r :
@@ -391,10 +413,6 @@ Proof.
   split; [apply rinv_l0_retention; auto|].
   destruct (l0_retention_frame st' l0r) as [F1 F2]. unfold frame in *. rewrite F2. intuition congruence.
 Qed.
-
-Lemma lmax_from_le : forall l m b, m <= b -> (forall f, In f l -> s_max f <= b) -> lmax_from m l <= b.
-Proof. induction l; simpl; intros; auto. unfold lmax_from in *. simpl. apply IHl; auto.
-  assert (s_max a <= b) by auto. destruct (m <? s_max a); lia. Qed.
 
 (** ** DB.Snapshot *)
 Lemma put_snap info : forall l c, s_min info = 1 -> snapP c l -> c < s_max info ->
@@ -433,7 +451,7 @@ Proof.
   assert (Hle: snapS st <= st_pos st).
   { unfold snapS. apply lmax_from_le; auto. lia. }
   split; [|unfold frame, snapS; simpl; rewrite upd_same, HS; repeat split; auto; lia].
-  destruct HI as [A B C D].
+  destruct HI as [A B C D M].
   constructor; unfold set_cache, set_rep, snapS; simpl.
   - destruct A as (a&?&?&?&?). exists a. rewrite !upd_other by (rewrite snap_level_9; lia). auto.
   - intros K HK. rewrite upd_same, HS. rewrite upd_other by (rewrite snap_level_9; lia).
@@ -442,6 +460,7 @@ Proof.
   - intros K i HK. destruct (K =? SnapshotLevel) eqn:E.
     + apply N.eqb_eq in E. subst. intros [= <-]. rewrite upd_same. simpl. auto.
     + apply N.eqb_neq in E. rewrite upd_other; auto.
+  - intros K HK. rewrite !upd_other by (rewrite snap_level_9; lia). auto.
 Qed.
 
 (** ** retention passes: [remove_all (spare_last (filter P l) (last_opt l)) l] *)
@@ -515,7 +534,7 @@ Proof.
   { apply floor_scan_le. { discriminate. } intros. apply lmax_in. auto. }
   destruct (st_ret st) eqn:Er; [|split; [exact HI|split; [repeat split|split; [reflexivity|exact Hfl]]]].
   split; [|split; [repeat split; auto|split; [unfold snapS, set_rep; simpl; rewrite upd_same; auto|auto]]].
-  destruct HI as [A B C Dd].
+  destruct HI as [A B C Dd M].
   constructor; unfold set_rep, snapS; simpl.
   - destruct A as (a&?&?&?&?). exists a. rewrite !upd_other by (rewrite snap_level_9; lia). auto.
   - intros K HK. rewrite upd_same, R1. rewrite upd_other by (rewrite snap_level_9; lia). apply B; auto.
@@ -524,6 +543,7 @@ Proof.
   - intros K i HK. caseK K SnapshotLevel.
     + intros. fold l. rewrite R1. apply Dd; auto.
     + apply Dd; auto.
+  - intros K HK. rewrite !upd_other by (rewrite snap_level_9; lia). auto.
 Qed.
 
 (** ** Compactor.EnforceRetentionByTXID *)
@@ -546,6 +566,7 @@ Proof.
     + apply incrP_filter; auto.
     + intros f Hf. apply filter_In in Hf. apply L3. tauto.
   - fold l. lia.
+  - rewrite R1. apply (ri_lmax st HI L HL).
   - intros K i HK E. destruct (N.eq_dec K L) as [->|]; [left|right; auto]. split; auto.
     rewrite R1. eapply ri_cache; eauto.
 Qed.
@@ -596,7 +617,7 @@ Proof.
   assert (HS: forall K, lmax (upd (st_rep st) lv (map g (st_rep st lv)) K) = lmax (st_rep st K)).
   { intros K. caseK K lv; auto. apply lmax_map; auto. }
   split; [|split; [repeat split|unfold snapS, set_rep; simpl; apply HS]].
-  destruct HI as [A B C D].
+  destruct HI as [A B C D M].
   constructor; unfold set_rep, snapS; simpl.
   - destruct A as (a&A1&A2&A3&A4). exists a. rewrite HS. caseK 0 lv; auto.
     rewrite map_length. repeat split; auto. { apply runP_map; auto. }
@@ -609,6 +630,7 @@ Proof.
   - destruct C as [C1 C2]. caseK SnapshotLevel lv; auto. split. { apply snapP_map; auto. }
     intros f Hf. destruct (in_map_range g Hg _ _ Hf) as (f0&?&?&E). rewrite E. auto.
   - intros K i HK E. rewrite HS. auto.
+  - intros K HK. rewrite !HS. auto.
 Qed.
 
 (** ** Store.CompactDB *)
@@ -673,6 +695,7 @@ Proof.
   - intros. unfold empty_replica. repeat split; simpl; auto; try contradiction.
   - unfold empty_replica. simpl. split; auto. intros ? [].
   - discriminate.
+  - intros. unfold empty_replica, lmax. simpl. lia.
 Qed.
 
 Fixpoint hist_ok (st : state) (ops : list op) : Prop :=
